@@ -157,6 +157,13 @@ func (e *SeqArrowExpr) Eval(ctx context.Context, local Scope) (_ Value, err erro
 			if err != nil {
 				return nil, WrapContextErr(err, e, local)
 			}
+			if attr == StringCharAttr || attr == BytesByteAttr {
+				// NewTuple would panic on a char or byte that is not a number.
+				if _, is := newItem.(Number); !is {
+					return nil, WrapContextErr(errors.Errorf(
+						"%s must produce a number for %s, not %s", e.op, attr, ValueTypeAsString(newItem)), e, local)
+				}
+			}
 			b.Add(NewTuple(Attr{"@", at}, Attr{attr, newItem}))
 		}
 		s, err := b.Finish()
